@@ -79,4 +79,5 @@ def run(ctx):
             ctx.violation('C08|%s|%s|%s%s' % (o['fam'], law, O.theta_bucket(o['fam'], float(o['theta'])), region),
                           '%s percent_point at theta=%s violates %s' % (o['fam'], o['theta'], law),
                           {'fam': o['fam'], 'theta': o['theta'], 'law': law, 'rerun': ['harness.props.C08._observe', list(jobs[i])]})
+    ctx.traces += len(obs)          # observation tables / samples of the real code judged by TLC
     ctx.exhaustive = False
